@@ -13,6 +13,25 @@ A second stream exercises the self-consistency of the previous SKR (`validate_re
 XML written by skr_to_xml) with real RSA keys: honest, bundle count +-1, every kind of signature tampering; the
 real verifier's answers are recorded (lib.VerifyRecorder) and passed to the model; dnspython's validate_rrsig
 is the independent oracle for "the signatures verify".
+
+IDENTIFIER RELATIONS (`ID_RELATED`): request ids, bundle ids, key identifiers and token labels are compared for EQUALITY by the
+documented rules.  Every stream that holds two of them also holds pairs that are distinct but related as strings — one a proper
+prefix / suffix / inner substring of the other, differing only in case, in the last character, in a blank or newline at an end,
+anagrams, numbered labels, the empty string, NFC vs NFD, a piece of a ", "-joined listing of the others — in both directions,
+next to the same pair made equal: request id vs previous id, KSR bundle id vs previous bundle id (first / last position), first
+keys vs previous last keys (same material under a related identifier, related identifier with its own key, both published), two
+signers of the previous last bundle under related labels with the token holding one, the other, or one's key under the other's label.
+
+CONFIGURATION SECTIONS (`run_sections_stream`): the option names that occur in two or more sections of the configuration are
+read off the pydantic models of the tree (ceremony_run.shared_section_options(): num_bundles and validate_signatures, in
+request_policy and response_policy).  The real ksrsigner() runs on a real configuration object and real files — honestly signed
+previous SKR / honest successor KSR with real keys, bit-flipped and foreign-signer signatures in the first and last bundle of
+either, (n_prev, n_ksr) = (3,2), (2,3), (2,2) — with the REAL load_skr and load_ksr, under every pair of values of those options
+in the two sections (equal, and DIFFERENT: validation on in one section and off in the other, each num_bundles at the own /
+the other document's count / +-1).  Expected, from the property text: the previous SKR is refused iff its bundle count differs
+from response_policy.num_bundles or (response_policy.validate_signatures and a signature does not verify under dnspython);
+the KSR is judged by request_policy's values; an SKR is signed and written iff both pass.  The model's load_skr gate under the
+response policy is compared as well.
 """
 
 from __future__ import annotations
@@ -34,12 +53,31 @@ ASSUMPTIONS = [
     "key texts are canonical base64 (what the tools and reference clients emit); other spellings make the model answer 'unsupported'",
     "when two keys of the previous last bundle share an identifier but not a key text, 'the key published under the identifier' is ambiguous: the region is not evaluated there (side condition IdsDeterminePk of C08_iff), model and implementation are still compared",
     "'signatures do not verify' is judged independently by dnspython's validate_rrsig with the named key only",
+    "sections stream: ksrsigner() runs with the real load_skr / load_ksr and a real KSKMConfig; token initialisation (no token attached), create_skr and the SKR writer are recording stubs; 'refused' for the previous SKR means load_skr did not return",
+    "sections stream: with response_policy.validate_signatures false the operator has switched the signature check of the previous SKR off; only the bundle count is then demanded (as in the validate_response stream)",
 ]
 TRUSTED = ["dnspython validate_rrsig as the independent RRSIG verifier in corr_C08", "the get_p11_key stub as stand-in for the PKCS#11 lookup"]
 
 SEC = 10**6
 OFFSETS = [-DAY_US, -SEC, 0, SEC, DAY_US]
 CHAIN_FLAGS = ["check_chain_keys", "check_chain_overlap", "check_chain_keys_in_hsm"]
+# pairs of DISTINCT identifiers that are related as strings (request ids, bundle ids, key identifiers / token labels are all
+# compared for equality by the documented rules): proper prefix, proper suffix, inner substring, case, last character, a blank
+# at either end, anagram, numbered labels, the empty string, canonically equivalent spellings
+ID_RELATED: dict[str, tuple[str, str]] = {
+    "prefix": ("KC2016", "KC2016b"),
+    "suffix": ("C2016", "KC2016"),
+    "inner": ("C201", "KC2016"),
+    "case": ("kc2016", "KC2016"),
+    "trailing": ("KC2016a", "KC2016b"),
+    "blank-end": ("KC2016", "KC2016 "),
+    "blank-start": ("KC2016", " KC2016"),
+    "anagram": ("KC2016", "KC2061"),
+    "digits": ("ksk1", "ksk10"),
+    "empty": ("", "KC2016"),
+    "newline-end": ("KC2016", "KC2016\n"),
+    "nfc-nfd": ("K\u00e9", "Ke\u0301"),
+}
 RULE_FUNCS = ["check_unique_request", "check_unique_bundle_ids", "check_chain_keys", "check_chain_overlap", "check_last_skr_key_present"]
 START = 1_500_000_000 * SEC
 
@@ -377,6 +415,11 @@ def scenarios(r: Any, tier: str) -> list[Pair]:
     for rid in ["skr-q1", "skr-q1 ", "SKR-Q1", "skr-q", "", "skr-q2"]:
         add(f"id:{rid!r}", base_ksr(last, 2, rid=rid), last)
     add("id:both-empty", base_ksr(base_last(2, rid=""), 2, rid=""), base_last(2, rid=""))
+    # identifier RELATIONS (ids are compared for equality: distinct but related strings are different requests), both directions
+    for rel, (a, b) in ID_RELATED.items():
+        for prev_id, new_id in ((a, b), (b, a), (a, a), (b, b)):
+            lst = base_last(2, rid=prev_id)
+            add(f"idrel:request:{rel}:{prev_id == new_id}", base_ksr(lst, 2, rid=new_id), lst)
 
     # ---- bundle id re-use at every position pair -----------------------------------------------
     sizes = [(2, 2), (3, 2), (2, 3)] + ([(9, 9)] if tier == "thorough" else [(4, 4)])
@@ -389,6 +432,22 @@ def scenarios(r: Any, tier: str) -> list[Pair]:
                 add(f"bundleid:{nl}:{nk}:{i}:{j}", base_ksr(last, nk, ids=ids), last)
     last = base_last(3)
     add("bundleid:near-miss", base_ksr(last, 2, ids=["a0 ", "A1"]), last)
+    # bundle ids that are distinct from, but related as strings to, the previous SKR's (and the same pairs made equal), at both ends
+    for rel, (a, b) in ID_RELATED.items():
+        for prev_id, new_id in ((a, b), (b, a), (a, a)):
+            for pos_prev, pos_new in ((0, 0), (2, 0), (0, 1), (2, 1)):
+                lst = base_last(3)
+                bl = list(lst.bundles)
+                bl[pos_prev] = bl[pos_prev].replace(id=prev_id)
+                lst = lst.replace(bundles=bl)
+                ids = ["b0", "b1"]
+                ids[pos_new] = new_id
+                if len(set(ids)) == 2 and len({x.id for x in bl}) == 3:
+                    add(f"idrel:bundle:{rel}:{prev_id == new_id}:{pos_prev}:{pos_new}", base_ksr(lst, 2, ids=ids), lst)
+    # … and a KSR bundle id that is a piece of a listing of the previous SKR's bundle ids
+    lst = base_last(3)
+    for piece in ("a0, a1", "0, a", "a0,a1", "a0 a1", "', '", "a0a1", "a"):
+        add(f"idrel:bundle:listing:{piece!r}", base_ksr(lst, 2, ids=[piece, "b1"]), lst)
 
     # ---- first-bundle key set vs. previous last key set ----------------------------------------------
     z1, z2, z3, z4, k1 = mk_key("Z1"), mk_key("Z2"), mk_key("Z3"), mk_key("Z4"), mk_key("K1", 257)
@@ -412,6 +471,18 @@ def scenarios(r: Any, tier: str) -> list[Pair]:
     }
     for name, fk in rel.items():
         add(f"keys:{name}", base_ksr(last, 2, first_keys=fk), last)
+    # key identifiers related as strings: the same key material under a related identifier, a related identifier with its own
+    # key (both absent from the previous last bundle), and previous last bundles that publish BOTH related identifiers
+    for relname, (a, b) in ID_RELATED.items():
+        ka, kb = mk_key(a), mk_key(b)
+        lst_a = base_last(2, last_keys=[ka, z2, k1])
+        lst_ab = base_last(2, last_keys=[ka, kb, z2, k1])
+        add(f"idrel:keys:{relname}:same-material-related-id", base_ksr(lst_a, 2, first_keys=[mk_key(b, pk=ka.public_key), z2]), lst_a)
+        add(f"idrel:keys:{relname}:related-id-own-key", base_ksr(lst_a, 2, first_keys=[kb, z2]), lst_a)
+        add(f"idrel:keys:{relname}:related-id-own-key-reverse", base_ksr(base_last(2, last_keys=[kb, z2, k1]), 2, first_keys=[ka, z2]), base_last(2, last_keys=[kb, z2, k1]))
+        add(f"idrel:keys:{relname}:both-published-both-asked", base_ksr(lst_ab, 2, first_keys=[ka, kb]), lst_ab)
+        add(f"idrel:keys:{relname}:both-published-swapped-material", base_ksr(lst_ab, 2, first_keys=[mk_key(a, pk=kb.public_key), mk_key(b, pk=ka.public_key)]), lst_ab)
+        add(f"idrel:keys:{relname}:one-published", base_ksr(lst_a, 2, first_keys=[ka, z2]), lst_a)
     # keys matched against the LAST bundle of the previous SKR, not an earlier one / against the FIRST bundle of the KSR only
     last_wo = base_last(3, last_keys=[z2, k1])  # Z1 is in earlier bundles only
     add("keys:only-in-earlier-prev-bundle", base_ksr(last_wo, 2, first_keys=[z1, z2]), last_wo)
@@ -468,6 +539,24 @@ def scenarios(r: Any, tier: str) -> list[Pair]:
         ("homonymous-keys-foreign-on-token", base_last(2, last_keys=[z1, z2, k1, mk_key("K1", 257, pk=pk_text("foreign"))], last_sigs=[s1]), [ent("K1", pk=other)]),
         ("signer-only-in-earlier-bundle-absent", base_last(3, last_keys=[z1, z2, k2], last_sigs=[s2]), [ent("K2", pk=pk2), ent("K1", found=False)]),
     ]
+    # two signers whose labels are distinct but related as strings: each present / absent / foreign in turn, and a token that holds
+    # only the OTHER label (a lookup by prefix / substring / case-folded label would find it)
+    for relname, (a, b) in ID_RELATED.items():
+        ra, rb = mk_key(a, 257), mk_key(b, 257)
+        sa, sb = mk_sig(a, inc, exp, tag=ra.key_tag), mk_sig(b, inc, exp, tag=rb.key_tag)
+        pa, pb = ra.public_key.decode(), rb.public_key.decode()
+        both = base_last(2, last_keys=[z1, z2, ra, rb], last_sigs=[sa, sb])
+        only_a = base_last(2, last_keys=[z1, z2, ra, rb], last_sigs=[sa])
+        only_b = base_last(2, last_keys=[z1, z2, ra, rb], last_sigs=[sb])
+        token_cases += [
+            (f"idrel:{relname}:both-present", both, [ent(a, pk=pa), ent(b, pk=pb)]),
+            (f"idrel:{relname}:first-absent", both, [ent(a, found=False), ent(b, pk=pb)]),
+            (f"idrel:{relname}:second-absent", both, [ent(a, pk=pa), ent(b, found=False)]),
+            (f"idrel:{relname}:material-swapped", both, [ent(a, pk=pb), ent(b, pk=pa)]),
+            (f"idrel:{relname}:signer-first-token-holds-only-second", only_a, [ent(a, found=False), ent(b, pk=pb)]),
+            (f"idrel:{relname}:signer-second-token-holds-only-first", only_b, [ent(a, pk=pa), ent(b, found=False)]),
+            (f"idrel:{relname}:signer-first-token-holds-it-under-second-label", only_a, [ent(a, found=False), ent(b, pk=pa)]),
+        ]
     # a real P-256 point under algorithm 13, with and without the SEC1 prefix on the token
     import keys as K
 
@@ -851,6 +940,215 @@ def run_glue_stream(res: Result, pairs: list[Pair], r: Any, tier: str) -> None:
 
 
 # --------------------------------------------------------------------------------------
+# the entry point with its REAL loaders: which configuration section judges the previous SKR
+# --------------------------------------------------------------------------------------
+
+KNOWN_SHARED = {"num_bundles", "validate_signatures"}  # the shared options whose documented meaning this stream evaluates
+
+
+def sections_files(r: Any, n_prev: int, n_ksr: int) -> tuple[Any, Any]:
+    """An honestly signed previous SKR of n_prev bundles and its honest successor KSR of n_ksr bundles (real RSA keys, real
+    proof-of-possession signatures, chained keys, overlap 11 days inside the declared 10..12)."""
+    import ceremony as C
+    import keys as K
+    from datetime import timedelta
+
+    prev, _ksks = signed_skr(n_prev, r)
+    pool = K.rsa_keys(1024, 65537)
+    zs = [("Z0", pool[0], 8), ("Z1", pool[1], 8)]
+    lz = (n_prev - 1) % 2  # the ZSK of the previous last bundle
+    layout = [[lz]] + [[lz, 1 - lz]] * (n_ksr - 1)
+    req = C.honest_request(zs, layout, start=prev.bundles[-1].expiration - timedelta(days=11), zsk_ttl=172800, req_id="ksr-next", bundle_prefix="next")
+    return prev, req
+
+
+def tamper_signature(doc: Any, index: int, how: str) -> Any:
+    """The document (Response or Request) with one signature of bundle `index` damaged."""
+    import keys as K
+    from kskm.common.signature import make_raw_rrsig
+
+    b = doc.bundles[index]
+    sigs = sorted(b.signatures, key=lambda x: x.key_identifier)
+    s0, rest = sigs[0], sigs[1:]
+    if how == "bitflip":
+        bad = s0.replace(signature_data=flip_bit(s0.signature_data, 9))
+    elif how == "foreign-signer":  # re-signed by another key under the same identifier and tag
+        foreign = K.rsa_keys(2048, 65537)[1]
+        bad = s0.replace(signature_data=base64.b64encode(foreign.sign_dnssec(8, make_raw_rrsig(s0, b.keys))))
+    else:
+        raise KeyError(how)
+    bl = list(doc.bundles)
+    bl[index] = b.replace(signatures=set(rest + [bad]))
+    return doc.replace(bundles=bl)
+
+
+def sections_run(tmp: Path, cfgd: dict[str, Any], prev: Any) -> tuple[list[str], Any, list[Any]]:
+    """The real ksrsigner() on a real configuration object and real files, with the real load_skr / load_ksr (wrapped to
+    record entry and success); token initialisation (no token), create_skr and the SKR writer are recording stubs.
+    Returns (ordered effects, outcome, verifier answers recorded during the run)."""
+    import contextlib
+    import copy
+    import io
+    import logging
+    from argparse import Namespace
+
+    import kskm.common.signature as ksig
+    import kskm.ksr
+    import kskm.misc.hsm
+    import kskm.skr
+    import kskm.tools.ksrsigner as ks
+    from kskm.common.config import KSKMConfig
+
+    events: list[str] = []
+    config = KSKMConfig.from_dict(copy.deepcopy(cfgd))
+    real_skr, real_ksr = kskm.skr.load_skr, kskm.ksr.load_ksr
+
+    def load_skr(*a: Any, **kw: Any) -> Any:
+        events.append("load_skr")
+        out = real_skr(*a, **kw)
+        events.append("previous-skr-accepted")
+        return out
+
+    def load_ksr(*a: Any, **kw: Any) -> Any:
+        events.append("load_ksr")
+        out = real_ksr(*a, **kw)
+        events.append("ksr-accepted")
+        return out
+
+    def rec(name: str, value: Any) -> Any:
+        events.append(name)
+        return value
+
+    args = Namespace(previous_skr=None, ksr=None, skr=None, force=True, schema="s", hsm=None, log_ksr_contents=False, log_skr_contents=False, log_previous_skr_contents=False, config=None)
+    saved = (kskm.skr.load_skr, kskm.ksr.load_ksr, kskm.misc.hsm.init_pkcs11_modules, ks.create_skr, ks.output_skr_xml)
+    kskm.skr.load_skr, kskm.ksr.load_ksr = load_skr, load_ksr
+    kskm.misc.hsm.init_pkcs11_modules = lambda config, name=None: rec("init_modules", [])
+    ks.create_skr = lambda request, schema, p11modules, config: rec("create_skr", prev)
+    ks.output_skr_xml = lambda skr, fn, log_contents=False: rec("write", None)
+    vrec = lib.VerifyRecorder().install(ksig)
+    try:
+        with contextlib.redirect_stdout(io.StringIO()):
+            out = run_impl(lambda: ks.ksrsigner(logging.getLogger("c08-sections"), args, config), lambda x: x)
+    finally:
+        vrec.uninstall()
+        kskm.skr.load_skr, kskm.ksr.load_ksr, kskm.misc.hsm.init_pkcs11_modules, ks.create_skr, ks.output_skr_xml = saved
+    return events, out, vrec.take()
+
+
+def sections_cfg(tmp: Path, n_prev: int, n_ksr: int, layout_sizes: list[int], req_opts: dict[str, Any], resp_opts: dict[str, Any]) -> dict[str, Any]:
+    rp = {
+        "num_bundles": n_ksr, "num_keys_per_bundle": layout_sizes, "num_different_keys_in_all_bundles": 2 if n_ksr > 1 else 1, "rsa_approved_key_sizes": [1024],
+        "check_cycle_length": False, "signature_check_expire_horizon": False,
+        # the stubbed create_skr returns the previous SKR: nothing but the loaders and the chain rules decides here
+        "check_keys_publish_safety": False, "check_keys_retire_safety": False,
+    }
+    rp.update(req_opts)
+    return {
+        "request_policy": rp,
+        "response_policy": dict({"num_bundles": n_prev}, **resp_opts),
+        "schemas": {"s": {1: {"publish": "k", "sign": "k"}}},
+        "filenames": {"previous_skr": str(tmp / "prev.xml"), "input_ksr": str(tmp / "ksr.xml"), "output_skr": str(tmp / "out.xml")},
+    }
+
+
+def run_sections_stream(res: Result, r: Any, tier: str, driver_ok: bool) -> None:
+    """Same-named options in DIFFERENT configuration sections (ceremony_run.shared_section_options(): read off the pydantic
+    models) set to different values.  The property says which document each section judges: the previous SKR is refused when ITS
+    bundle count is wrong or ITS signatures do not verify — `response_policy` —, the KSR under `request_policy`.  Real files,
+    real loaders, real configuration object; (n_prev, n_ksr) bundles with n_prev != n_ksr as well, so that even the honest
+    configuration has different num_bundles in the two sections."""
+    import xml.etree.ElementTree as ET
+
+    import ceremony as C
+    import ceremony_run as R
+    from kskm.common.config_misc import ResponsePolicy
+    from kskm.ksr.load import request_from_xml
+    from kskm.skr.load import response_from_xml
+    from kskm.skr.output import skr_to_xml
+
+    shared = R.shared_section_options()
+    res.stats["options-named-in-two-sections"] = shared
+    for opt, secs in shared.items():
+        if opt in KNOWN_SHARED and set(secs) == {"request_policy", "response_policy"}:
+            res.bump(f"sections:shared-option:{opt}:varied")
+        else:
+            res.bump(f"sections:shared-option:{opt}:NOT-varied")
+            res.notes.append(f"option {opt!r} occurs in sections {secs}: this stream does not know its documented meaning and does not set the sections apart for it")
+    cases: list[dict[str, Any]] = []
+    lines: list[dict[str, Any]] = []
+    with tempfile.TemporaryDirectory(prefix="c08_sections_") as tmpname:
+        tmp = Path(tmpname)
+        for n_prev, n_ksr in [(3, 2), (2, 3), (2, 2)] + ([(9, 9), (4, 9)] if tier == "thorough" else []):
+            prev, req = sections_files(r, n_prev, n_ksr)
+            prev_variants = [("honest", prev)] + [(f"{how}:bundle-{i + 1}-of-{n_prev}", tamper_signature(prev, i, how)) for i in sorted({0, n_prev - 1}) for how in ("bitflip", "foreign-signer")]
+            ksr_variants = [("honest", req)] + [(f"bitflip:bundle-{j + 1}-of-{n_ksr}", tamper_signature(req, j, "bitflip")) for j in sorted({0, n_ksr - 1})]
+            # every pair of values (request section, response section) for each shared option: the honest value and its neighbours
+            honest = {"num_bundles": (n_ksr, n_prev), "validate_signatures": (True, True)}
+            settings: list[tuple[dict[str, Any], dict[str, Any]]] = []
+            nb_vals = sorted({n_prev, n_ksr, *R.differing_values(n_prev), *R.differing_values(n_ksr)})
+            nb_pairs = sorted({honest["num_bundles"], (n_prev, n_ksr), (n_prev, n_prev), (n_ksr, n_ksr)} | {(v, n_prev) for v in nb_vals} | {(n_ksr, v) for v in nb_vals})
+            for rv, sv in itertools.product([True, False], repeat=2):
+                for rn, sn in nb_pairs:
+                    settings.append(({"num_bundles": rn, "validate_signatures": rv}, {"num_bundles": sn, "validate_signatures": sv}))
+            sizes = [len(b.keys) for b in req.bundles]
+            for (ptag, pdoc), (ktag, kdoc) in itertools.product(prev_variants, ksr_variants):
+                pxml, kxml = skr_to_xml(pdoc), C.request_to_xml(kdoc)
+                (tmp / "prev.xml").write_text(pxml)
+                (tmp / "ksr.xml").write_text(kxml)
+                # the judgement of the two FILES, independent of any policy: bundle counts by ElementTree, signatures by dnspython
+                n_prev_file = len(ET.fromstring(pxml).find("Response").findall("ResponseBundle"))
+                n_ksr_file = len(ET.fromstring(kxml).find("Request").findall("RequestBundle"))
+                parsed_prev, parsed_ksr = response_from_xml(pxml), request_from_xml(kxml)
+                prev_verifies = all(dns_verifies(b) for b in parsed_prev.bundles)
+                ksr_verifies = all(dns_verifies(b) for b in parsed_ksr.bundles)
+                for req_opts, resp_opts in settings:
+                    cfgd = sections_cfg(tmp, n_prev, n_ksr, sizes, req_opts, resp_opts)
+                    events, out, table = sections_run(tmp, cfgd, prev)
+                    case = {
+                        "stream": "ksrsigner-sections", "previous_skr": ptag, "ksr": ktag, "bundles": {"previous_skr": n_prev_file, "ksr": n_ksr_file},
+                        "request_policy": req_opts, "response_policy": resp_opts, "prev_xml": pxml, "ksr_xml": kxml, "config": cfgd,
+                    }
+                    want_prev = n_prev_file == resp_opts["num_bundles"] and (not resp_opts["validate_signatures"] or prev_verifies)
+                    want_ksr = n_ksr_file == req_opts["num_bundles"] and (not req_opts["validate_signatures"] or ksr_verifies)
+                    cases.append({"case": case, "events": events, "out": out, "want_prev": want_prev, "want_ksr": want_ksr, "prev_verifies": prev_verifies, "ksr_verifies": ksr_verifies})
+                    lines.append({"op": "load_skr_gate", "response": response_j(parsed_prev), "policy": response_policy_j(ResponsePolicy(**resp_opts)), "verify": table})
+    model = run_driver(lines, exe=DRIVER) if driver_ok else [None] * len(lines)
+    for c, m in zip(cases, model):
+        case, events, out = c["case"], c["events"], c["out"]
+        brief = {k: v for k, v in case.items() if k not in ("prev_xml", "ksr_xml", "config")}
+        res.count(brief)
+        differ = [o for o in sorted(KNOWN_SHARED) if case["request_policy"][o] != case["response_policy"][o]]
+        res.bump("sections:differ-in:" + ("+".join(differ) or "nothing"))
+        res.bump("sections:previous-skr:" + case["previous_skr"].split(":")[0] + (":accepted" if "previous-skr-accepted" in events else ":refused"))
+        res.bump("sections:ksr:" + case["ksr"].split(":")[0] + (":accepted" if "ksr-accepted" in events else ":refused" if "load_ksr" in events else ":not-reached"))
+        got_prev = "previous-skr-accepted" in events
+        got_ksr = "ksr-accepted" in events
+        key = f"sections:{'+'.join(differ) or 'same'}:{case['previous_skr'].split(':')[0]}:{case['ksr'].split(':')[0]}"
+        extra = dict(effects=events, outcome=out, dnspython_verifies={"previous_skr": c["prev_verifies"], "ksr": c["ksr_verifies"]})
+        if got_prev and not c["want_prev"]:
+            res.violation("ksrsigner(): a previous SKR whose signatures do not verify or whose bundle count is wrong under response_policy was accepted (processing continued)", case, key=key, **extra)
+        elif not got_prev and c["want_prev"]:
+            res.violation("ksrsigner(): a previous SKR that is consistent under response_policy (right bundle count, signatures verify or validation switched off there) was refused", case, key=key, **extra)
+        elif got_prev:
+            if got_ksr != c["want_ksr"]:
+                res.violation("ksrsigner(): the KSR is not judged by request_policy's own num_bundles / validate_signatures", case, key=key + ":ksr", expected_ksr_accepted=c["want_ksr"], **extra)
+            # an honest successor of a consistent previous SKR is signed and written; nothing is signed or written otherwise
+            done = "create_skr" in events and "write" in events and out == {"ok": True}
+            if done != (c["want_prev"] and c["want_ksr"]):
+                res.violation("ksrsigner(): signing / writing does not coincide with 'previous SKR consistent under response_policy and KSR acceptable under request_policy'", case, key=key + ":written", **extra)
+        if not got_prev and any(e in events for e in ("load_ksr", "create_skr", "write")):
+            res.violation("ksrsigner(): processing continued after the previous SKR was refused", case, key=key + ":continued", **extra)
+        if not any(isinstance(x, dict) and x.get("stream") == "ksrsigner-sections" for x in res.samples) and differ and not c["want_prev"]:
+            res.sample({**brief, "effects": events, "outcome": out, "model(load_skr_gate under response_policy)": m}, limit=8)
+        if m is None:
+            continue
+        if lib.is_unsupported(m):
+            res.unsupported += 1  # (the recorded verifier answers do not cover what the model asks: the run validated under other options)
+        elif ("ok" in m) != got_prev:
+            res.disagreement("ksrsigner(): the previous SKR passes / fails the entry point's gate unlike the model's load_skr gate under response_policy", case, {"effects": events, "outcome": out}, m)
+
+
+# --------------------------------------------------------------------------------------
 # run
 # --------------------------------------------------------------------------------------
 
@@ -929,7 +1227,11 @@ def run(tier: str, driver_ok: bool) -> Result:
         "states (present, unsigned, absent, no/empty key text, foreign key under the label, lookup raising, two signers with each failing in turn, signer not "
         "published, EC points bare/prefixed, homonymous keys) x {token attached, None, []}, random combinations; every pair under all 8 chain-flag subsets; "
         "every rule also called on its own under all-on flags.  Second stream: validate_response / load_skr on really signed SKRs (count +-1, bit flips, "
-        "foreign signer, altered fields, key set changed after signing).  non-trivial = distinct (pair, flags, token) input"
+        "foreign signer, altered fields, key set changed after signing).  Identifier relations: "
+        f"{len(ID_RELATED)} kinds of distinct-but-related strings ({', '.join(ID_RELATED)}) as request ids, bundle ids, key identifiers and token labels, both directions, next to the "
+        "equal pair.  Configuration sections: real ksrsigner() with real load_skr / load_ksr on real files under every pair of values of the options named in two "
+        "sections (read off the pydantic models: num_bundles, validate_signatures in request_policy / response_policy), previous SKR and KSR honest / bit-flipped / "
+        "re-signed by a foreign key in the first and last bundle, bundle counts (3,2) (2,3) (2,2).  non-trivial = distinct (pair, flags, token) input"
     )
     r = lib.rng("C08")
     pairs = scenarios(r, tier)
@@ -963,6 +1265,7 @@ def run(tier: str, driver_ok: bool) -> Result:
 
     run_skr_stream(res, r, tier, driver_ok)
     run_glue_stream(res, pairs, r, tier)
+    run_sections_stream(res, lib.rng("C08:sections"), tier, driver_ok)
     return res
 
 
@@ -984,6 +1287,26 @@ def replay(obj: dict[str, Any]) -> Any:
             rec.uninstall()
         m = run_driver([{"op": "validate_response", "response": response_j(resp), "policy": response_policy_j(pol), "verify": table}], exe=DRIVER)[0]
         return {"case": {k: case[k] for k in ("stream", "tag", "num_bundles", "validate_signatures")}, "implementation(validate_response)": impl, "model": m, "dnspython_verifies": all(dns_verifies(b) for b in resp.bundles)}
+    if case.get("stream") == "ksrsigner-sections":
+        import copy
+
+        from kskm.skr.load import response_from_xml
+
+        with tempfile.TemporaryDirectory(prefix="c08_sections_") as tmpname:
+            tmp = Path(tmpname)
+            (tmp / "prev.xml").write_text(case["prev_xml"])
+            (tmp / "ksr.xml").write_text(case["ksr_xml"])
+            cfgd = copy.deepcopy(case["config"])
+            cfgd["schemas"] = {"s": {1: {"publish": "k", "sign": "k"}}}  # (JSON turned the slot number into a string)
+            cfgd["filenames"] = {"previous_skr": str(tmp / "prev.xml"), "input_ksr": str(tmp / "ksr.xml"), "output_skr": str(tmp / "out.xml")}
+            prev = response_from_xml(case["prev_xml"])
+            events, out, _table = sections_run(tmp, cfgd, prev)
+        return {
+            "case": {k: case[k] for k in ("stream", "previous_skr", "ksr", "bundles", "request_policy", "response_policy")},
+            "effects_of_ksrsigner": events, "outcome": out,
+            "dnspython: every signature of the previous SKR verifies": all(dns_verifies(b) for b in prev.bundles),
+            "expected": "previous-skr-accepted iff bundle count == response_policy.num_bundles and (signatures verify or response_policy.validate_signatures is false)",
+        }
     ksr, last = request_from_j(case["request"]), response_from_j(case["last"])
     p = Pair(case["tag"], ksr, last, case["token"], case["attached"])
     c2, lines, obs = evaluate(p, case["flags"], with_rules=True)
